@@ -571,7 +571,7 @@ FIXED = [
 def correspondence(ctx):
     r = common.rng('c14')
     if ctx.thorough:
-        cases = _histories(r, 2400, 60) + _histories(r, 480, 400)
+        cases = _histories(r, 2000, 60) + _histories(r, 300, 400)
         per_file = 60
     else:
         cases = _histories(r, 320, 60) + _histories(r, 6, 200)
